@@ -304,10 +304,12 @@ def compare(scn, cfg, acc):
                                 'same' if o['outcome'] == b['outcome'] else 'DIFFERS'),
              calls=2, sample=dict(scenario=scn, config=cfg) if lg and isinstance(lg[2], int) and lg[2] == 7 else None)
     case = dict(check='observers', scenario=scn, config=cfg)
+    # scenarios about one particular calling convention carry it in the signature
+    X = {'scenario': '%s/%s' % (scn[0], scn[1])} if scn[1] == 'errorkw' else {}
     if o['outcome'] != b['outcome']:
         what = 'outcome-differs:%s->%s' % (b['outcome'][0] if b['outcome'][0] == 'ok' else b['outcome'][1],
                                            o['outcome'][0] if o['outcome'][0] == 'ok' else o['outcome'][1])
-        acc.violation(dict(check='observers', what=what, observer=_observer_class(cfg, b, o, scn)),
+        acc.violation(dict(X, check='observers', what=what, observer=_observer_class(cfg, b, o, scn)),
                       case, b['outcome'][:3], o['outcome'][:3])
     if o['wire'] != b['wire']:
         # an observer must not change what is sent either (the server's answer depends on it)
@@ -320,7 +322,7 @@ def compare(scn, cfg, acc):
             if bb != ob:
                 what = 'body'
                 break
-        acc.violation(dict(check='wire', what='request-differs:' + what,
+        acc.violation(dict(X, check='wire', what='request-differs:' + what,
                            observer=_observer_class(cfg, b, o, scn, field='wire')),
                       case, str(b['wire'])[:300], str(o['wire'])[:300])
     if not b['raw_request_ok'] or not b['raw_reply_ok']:
@@ -343,7 +345,7 @@ def compare(scn, cfg, acc):
             cnt = 1 if sum(c for c, _ in st.values()) >= 1 else 0
             exc_cnt = 1 if raised and sum(e for _, e in st.values()) >= 1 else (0 if not raised else -1)
         if cnt != 1 or exc_cnt != (1 if raised else 0):
-            acc.violation(dict(check='statistics', what='count=%d exception_count=%d raised=%s' % (cnt, exc_cnt, raised)),
+            acc.violation(dict(X, check='statistics', what='count=%d exception_count=%d raised=%s' % (cnt, exc_cnt, raised)),
                           case, (1, 1 if raised else 0), (cnt, exc_cnt))
     for sec in SECRETS:
         if sec in o['text']:
